@@ -451,6 +451,7 @@ def voicing_recall(ref_voicing, est_voicing):
         Voicing recall rate, the fraction of voiced frames in ref
         indicated as voiced in est
     """
+    validate_voicing(ref_voicing, est_voicing)
     if ref_voicing.size == 0 or est_voicing.size == 0:
         return 0.0
     ref_indicator = (ref_voicing > 0).astype(float)
@@ -488,6 +489,7 @@ def voicing_false_alarm(ref_voicing, est_voicing):
         Voicing false alarm rate, the fraction of unvoiced frames in ref
         indicated as voiced in est
     """
+    validate_voicing(ref_voicing, est_voicing)
     if ref_voicing.size == 0 or est_voicing.size == 0:
         return 0.0
     ref_indicator = (ref_voicing == 0).astype(float)
